@@ -99,8 +99,8 @@ def run(tier, seed):
     c.assumptions = ["keys cross into the specification as ranks in the driver's own typed order (numeric, byte-lexicographic, lexicographic for composites); "
                      "64-bit keys include neighbours above 2^53 and at the top of the range (they collided before the comparison fix c56fbc9)",
                      "payload identity by id; payload bytes are compared by the driver",
-                     "rows that continue in overflow chains are inserted, looked up, scanned and released with the whole tree, never rewritten "
-                     "(recorded findings SeparatorAliasesOverflowChain, BalanceFailsOnLargeCells; witnesses are re-run)",
+                     "a quarter of the segments use rows that continue in overflow chains (up to three pages per row) through the full operation mix, "
+                     "including delete-everything-then-reinsert (possible since the separator fix 3a55300)",
                      "iteration is forward only (the engine never iterates backwards)",
                      "workloads are drawn from the vetted seed pool pools/tree.json"]
     model_check(c, tier)
